@@ -512,9 +512,120 @@ class _ExprInliner(ast.NodeTransformer):
         return ast.copy_location(e, n)
 
 
+_hoist_counter = [0]
+
+
+def _bool_chain(e) -> bool:
+    """An `a if t else b` chain in which every level has a True/False constant arm (a predicate written as
+    guard clauses)."""
+    if not isinstance(e, ast.IfExp):
+        return True
+    for arm, other in ((e.body, e.orelse), (e.orelse, e.body)):
+        if isinstance(arm, ast.Constant) and isinstance(arm.value, bool):
+            return _bool_chain(other)
+    return False
+
+
+class _BoolIfExp(ast.NodeTransformer):
+    """In a truth-value context: `True if a else b` -> `a or b`, `False if a else b` -> `not a and b`,
+    `b if a else False` -> `a and b`, `b if a else True` -> `not a or b`."""
+
+    def fold(self, e):
+        if isinstance(e, ast.UnaryOp) and isinstance(e.op, ast.Not):
+            e.operand = self.fold(e.operand)
+            return e
+        if isinstance(e, ast.BoolOp):
+            e.values = [self.fold(v) for v in e.values]
+            return e
+        if not isinstance(e, ast.IfExp) or not _bool_chain(e):
+            return e
+        t, a, b = e.test, e.body, e.orelse
+        neg = lambda x: ast.copy_location(ast.UnaryOp(op=ast.Not(), operand=x), x)  # noqa: E731
+        if isinstance(a, ast.Constant) and isinstance(a.value, bool):
+            rest = self.fold(b)
+            new = ast.BoolOp(op=ast.Or(), values=[t, rest]) if a.value else ast.BoolOp(op=ast.And(), values=[neg(t), rest])
+        else:
+            rest = self.fold(a)
+            new = ast.BoolOp(op=ast.Or(), values=[neg(t), rest]) if b.value else ast.BoolOp(op=ast.And(), values=[t, rest])
+        # `x or False` / `x and True`
+        vals = [v for v in new.values if not (isinstance(v, ast.Constant) and isinstance(v.value, bool) and v.value == isinstance(new.op, ast.And))]
+        if len(vals) == 1:
+            return ast.copy_location(vals[0], e)
+        if len(vals) == 2:
+            new.values = vals
+        return ast.copy_location(new, e)
+
+
+def _leftmost_call_slot(e):
+    """(parent, field, index) of the call that a (test / value) expression evaluates first and
+    unconditionally, looking through `not`, the first operand of and/or, and the left side of a comparison."""
+    parent, fld, idx = None, None, None
+    cur = e
+    while True:
+        if isinstance(cur, ast.Call):
+            return parent, fld, idx, cur
+        if isinstance(cur, ast.UnaryOp) and isinstance(cur.op, ast.Not):
+            parent, fld, idx, cur = cur, "operand", None, cur.operand
+        elif isinstance(cur, ast.BoolOp):
+            parent, fld, idx, cur = cur, "values", 0, cur.values[0]
+        elif isinstance(cur, ast.Compare):
+            parent, fld, idx, cur = cur, "left", None, cur.left
+        else:
+            return None
+
+
+def _hoist_statement_helper(model, caller, st, inventory):
+    """`if not H(..): ...` / `return not H(..)` / `x = H(..) == y` where H is a new helper whose body
+    needs statements (or several returns): `tmp = H(..)` + the statement reading tmp, so that the
+    statement-level inliner can take it.  None if nothing to hoist."""
+    if isinstance(st, ast.If):
+        holder, attr = st, "test"
+    elif isinstance(st, (ast.Return, ast.Assign, ast.Expr)) and st.value is not None:
+        holder, attr = st, "value"
+    else:
+        return None
+    e = getattr(holder, attr)
+    if isinstance(e, ast.Call) and not isinstance(st, ast.If):
+        return None  # already a statement-level call
+    slot = _leftmost_call_slot(e)
+    if slot is None:
+        return None
+    parent, fld, idx, call = slot
+    t = model.resolve_call(caller, call)
+    if t.kind != "func" or not _is_new(t.target, inventory) or t.target is caller or not _inlinable(model, t.target, caller):
+        return None
+    h = t.target
+    if h.parent is not None and isinstance(h.parent, FuncInfo) and h.parent is not caller:
+        return None
+    expr = _as_expression(_strip_doc(list(h.node.body)))
+    if expr is not None and not isinstance(expr, ast.IfExp):
+        return None  # a one-expression helper: the expression inliner handles it in place
+    if expr is not None and isinstance(st, ast.If) and _bool_chain(expr):
+        return None  # a predicate made of `return True/False` guards: becomes an and/or expression in the test
+    _hoist_counter[0] += 1
+    tmp = f"__inl{_hoist_counter[0]}"
+    asg = ast.copy_location(ast.Assign(targets=[ast.Name(id=tmp, ctx=ast.Store())], value=call, lineno=st.lineno), st)
+    ref = ast.copy_location(ast.Name(id=tmp, ctx=ast.Load()), call)
+    if parent is None:
+        setattr(holder, attr, ref)
+    elif idx is None:
+        setattr(parent, fld, ref)
+    else:
+        getattr(parent, fld)[idx] = ref
+    ast.fix_missing_locations(asg)
+    return [asg, st]
+
+
 def _process_block(model, caller, stmts: list, inventory) -> tuple:
     out, changed = [], False
-    for st in stmts:
+    work = list(stmts)
+    while work:
+        st = work.pop(0)
+        hoisted = _hoist_statement_helper(model, caller, st, inventory)
+        if hoisted is not None:
+            work[0:0] = hoisted
+            changed = True
+            continue
         rep = _expand_stmt(model, caller, st, inventory)
         if rep is not None:
             out.extend(rep)
@@ -548,6 +659,9 @@ def _process_block(model, caller, stmts: list, inventory) -> tuple:
                 for wi in val:
                     wi.context_expr = ei.visit(wi.context_expr)
         changed = changed or ei.changed
+        if ei.changed and isinstance(st, (ast.If, ast.While)):
+            st.test = _BoolIfExp().fold(st.test)
+            ast.fix_missing_locations(st)
         out.append(st)
     return out, changed
 
@@ -965,3 +1079,990 @@ def _walk_own(fn_node):
             if isinstance(c, (ast.FunctionDef, ast.AsyncFunctionDef, ast.Lambda, ast.ClassDef)):
                 continue
             work.append(c)
+
+
+# --------------------------------------------------------------------------- table-driven code
+MAX_TABLE = 16
+
+
+def _table_elt_ok(e) -> bool:
+    if isinstance(e, ast.Constant):
+        return not isinstance(e.value, (bytes, type(Ellipsis)))
+    if isinstance(e, ast.Name):
+        return True  # a function / class / module-level name
+    if isinstance(e, ast.Attribute):
+        return _table_elt_ok(e.value)
+    if isinstance(e, ast.Tuple):
+        return all(_table_elt_ok(x) for x in e.elts)
+    return False
+
+
+def _new_tables(model, module_names: dict):
+    """Module-level tuples (rows of constants / names) and dicts (constant-or-name keys -> names) that do
+    not exist in the pinned tree and are bound exactly once: the data of table-driven rewrites of
+    if/elif chains."""
+    seqs, dicts = {}, {}
+    for mod in model.modules.values():
+        if mod.short.startswith("_typeguard"):
+            continue
+        known = module_names.get(mod.short, set())
+        count = {}
+        for st in ast.walk(mod.tree):
+            if isinstance(st, ast.Name) and isinstance(st.ctx, (ast.Store, ast.Del)):
+                count[st.id] = count.get(st.id, 0) + 1
+        for st in mod.tree.body:
+            if isinstance(st, ast.Assign) and len(st.targets) == 1 and isinstance(st.targets[0], ast.Name):
+                nm, v = st.targets[0].id, st.value
+            elif isinstance(st, ast.AnnAssign) and isinstance(st.target, ast.Name) and st.value is not None:
+                nm, v = st.target.id, st.value
+            else:
+                continue
+            if nm in known or count.get(nm, 0) != 1:
+                continue
+            if isinstance(v, (ast.Tuple, ast.List)) and 0 < len(v.elts) <= MAX_TABLE and all(_table_elt_ok(e) for e in v.elts):
+                if isinstance(v, ast.List) and _mutated_anywhere(model, mod, nm):
+                    continue
+                if all(isinstance(e, ast.Constant) for e in v.elts) and isinstance(v, ast.Tuple):
+                    pass  # also a plain constant; unrolling loops over it is still right
+                seqs[(mod.short, nm)] = v
+            elif isinstance(v, ast.Dict) and 0 < len(v.keys) <= MAX_TABLE and all(k is not None and _table_elt_ok(k) for k in v.keys) \
+                    and all(_table_elt_ok(x) for x in v.values) and not _mutated_anywhere(model, mod, nm):
+                dicts[(mod.short, nm)] = v
+    return seqs, dicts
+
+
+_DICT_MUT = {"update", "pop", "popitem", "clear", "setdefault", "__setitem__", "__delitem__", "append", "extend", "insert", "remove", "sort", "reverse"}
+
+
+def _mutated_anywhere(model, mod, nm) -> bool:
+    """Conservative: any store through the name, any mutator method call, any use other than reading
+    (`.get`, subscript load, `in`, iteration) anywhere in the package counts as a possible mutation."""
+    for m2 in model.modules.values():
+        if m2.short.startswith("_typeguard"):
+            continue
+        parents = {}
+        for p in ast.walk(m2.tree):
+            for c in ast.iter_child_nodes(p):
+                parents[id(c)] = p
+        for n in ast.walk(m2.tree):
+            if not (isinstance(n, ast.Name) and n.id == nm and isinstance(n.ctx, ast.Load)):
+                continue
+            if m2 is not mod and nm not in m2.imports:
+                continue
+            p = parents.get(id(n))
+            if isinstance(p, ast.Attribute) and p.value is n:
+                if p.attr in ("get", "items", "keys", "values", "__contains__", "__getitem__", "index", "count"):
+                    continue
+                return True
+            if isinstance(p, ast.Subscript) and p.value is n and isinstance(p.ctx, ast.Load):
+                continue
+            if isinstance(p, ast.Compare) and n in p.comparators:
+                continue
+            if isinstance(p, (ast.For, ast.comprehension)) and p.iter is n:
+                continue
+            if isinstance(p, ast.Call) and isinstance(p.func, ast.Name) and p.func.id in ("len", "tuple", "list", "dict", "iter", "enumerate", "set", "frozenset", "sorted") and n in p.args:
+                continue
+            return True
+    return False
+
+
+def _row_bindings(target, row):
+    """{loop variable: AST of its value} for one table row, or None when the shapes disagree."""
+    if isinstance(target, ast.Name):
+        return {target.id: row}
+    if isinstance(target, (ast.Tuple, ast.List)) and isinstance(row, ast.Tuple) and len(target.elts) == len(row.elts):
+        out = {}
+        for t, r in zip(target.elts, row.elts):
+            sub = _row_bindings(t, r)
+            if sub is None:
+                return None
+            out.update(sub)
+        return out
+    return None
+
+
+class _SubstLoads(ast.NodeTransformer):
+    def __init__(self, env):
+        self.env = env
+
+    def visit_Name(self, n):
+        if isinstance(n.ctx, ast.Load) and n.id in self.env:
+            return ast.copy_location(copy.deepcopy(self.env[n.id]), n)
+        return n
+
+
+class _FoldConstCalls(ast.NodeTransformer):
+    """`"jaxtyping_disable".upper()` -> "JAXTYPING_DISABLE"; `setattr(o, "name", v)` / `getattr(o, "name")`
+    with a literal identifier -> attribute syntax (as an expression statement / expression)."""
+
+    _PURE = {"upper", "lower", "strip", "lstrip", "rstrip", "title", "capitalize", "casefold"}
+
+    def visit_Call(self, n):
+        self.generic_visit(n)
+        f = n.func
+        if isinstance(f, ast.Attribute) and isinstance(f.value, ast.Constant) and isinstance(f.value.value, str) and f.attr in self._PURE \
+                and not n.args and not n.keywords:
+            return ast.copy_location(ast.Constant(value=getattr(f.value.value, f.attr)()), n)
+        if isinstance(f, ast.Name) and f.id == "getattr" and len(n.args) == 2 and not n.keywords and isinstance(n.args[1], ast.Constant) \
+                and isinstance(n.args[1].value, str) and n.args[1].value.isidentifier():
+            return ast.copy_location(ast.Attribute(value=n.args[0], attr=n.args[1].value, ctx=ast.Load()), n)
+        return n
+
+    def visit_Expr(self, n):
+        self.generic_visit(n)
+        c = n.value
+        if isinstance(c, ast.Call) and isinstance(c.func, ast.Name) and c.func.id == "setattr" and len(c.args) == 3 and not c.keywords \
+                and isinstance(c.args[1], ast.Constant) and isinstance(c.args[1].value, str) and c.args[1].value.isidentifier():
+            return ast.copy_location(ast.Assign(targets=[ast.Attribute(value=c.args[0], attr=c.args[1].value, ctx=ast.Store())], value=c.args[2], lineno=n.lineno), n)
+        return n
+
+
+def _loop_level(stmts, kinds):
+    """break / continue statements that belong to the loop whose body is `stmts`."""
+    out = []
+    for st in stmts:
+        if isinstance(st, kinds):
+            out.append(st)
+        if isinstance(st, (ast.For, ast.While, ast.AsyncFor, ast.FunctionDef, ast.AsyncFunctionDef, ast.ClassDef)):
+            # inner loops own their break/continue, but their `else:` belongs to us
+            if isinstance(st, (ast.For, ast.While, ast.AsyncFor)):
+                out += _loop_level(st.orelse, kinds)
+            continue
+        for fld in ("body", "orelse", "finalbody"):
+            sub = getattr(st, fld, None)
+            if isinstance(sub, list):
+                out += _loop_level(sub, kinds)
+        for hd in getattr(st, "handlers", []) or []:
+            out += _loop_level(hd.body, kinds)
+    return out
+
+
+def _names_stored(node) -> set:
+    return {x.id for x in ast.walk(node) if isinstance(x, ast.Name) and isinstance(x.ctx, (ast.Store, ast.Del))}
+
+
+def unroll_new_tables(model, module_names: dict) -> list:
+    """Table-driven rewrites are turned back into the straight-line / if-elif code they stand for:
+
+      * `for a, b in TABLE: BODY` (no break/continue) -> BODY once per row, loop variables substituted;
+      * first-match loops `for a, b in TABLE: if TEST: ...; break|return|raise` [`else: E`] -> an
+        if / elif chain over the rows [with E as the final else];
+      * `[f(a) for a, _ in TABLE]`, `{a: v for a, _ in TABLE}` -> the literal;
+      * `h = TABLE.get(type(x), default)` + one call `h(...)` -> an if / elif chain of direct calls
+        (`TABLE[key]`: the chain ends in `raise KeyError(key)`).
+
+    Only for tables that do not exist in the pinned tree, are bound once and are never written; loop
+    variables must not be re-bound in the body nor read after the loop.  What does not fit stays as it
+    is (the rules then see a loop over an unknown table and give no verdict)."""
+    seqs, dicts = _new_tables(model, module_names)
+    if not seqs and not dicts:
+        return []
+    used = set()
+
+    def table_of(scope, e, kind):
+        if not isinstance(e, ast.Name):
+            return None
+        b = model.resolve_name(scope, e.id)
+        if b.kind != "modvar":
+            return None
+        key = (b.target[0].short, b.target[1])
+        return key if key in (seqs if kind == "seq" else dicts) else None
+
+    def unroll_for(scope, st, following):
+        """Replacement statement list for the For statement `st`, or None."""
+        key = table_of(scope, st.iter, "seq")
+        if key is None:
+            return None
+        rows = seqs[key].elts
+        envs = [_row_bindings(st.target, r) for r in rows]
+        if any(e is None for e in envs):
+            return None
+        tnames = {x.id for x in ast.walk(st.target) if isinstance(x, ast.Name)}
+        if tnames & (_names_stored(ast.Module(body=st.body, type_ignores=[])) | _names_stored(ast.Module(body=st.orelse, type_ignores=[]))):
+            return None
+        # loop variables read after the loop (or in its else) keep a value the unrolled code never binds
+        for later in list(st.orelse) + list(following):
+            if any(isinstance(x, ast.Name) and x.id in tnames - {"_"} and isinstance(x.ctx, ast.Load) for x in ast.walk(later)):
+                return None
+        brk = _loop_level(st.body, (ast.Break,))
+        cont = _loop_level(st.body, (ast.Continue,))
+
+        def body_for(env, stmts):
+            out = [_SubstLoads(env).visit(copy.deepcopy(s)) for s in stmts]
+            out = [_FoldConstCalls().visit(s) for s in out]
+            for s in out:
+                _FoldFStrings().visit(s)
+            return out
+
+        if not brk and not cont:
+            # every row runs (an early return/raise inside simply ends the function, as in the loop)
+            out = []
+            for env in envs:
+                out += body_for(env, st.body)
+            out += list(st.orelse)
+            used.add(".".join(key))
+            return out
+        # first-match: the body is one `if` without else whose block ends the loop
+        if cont or len(st.body) != 1 or not isinstance(st.body[0], ast.If) or st.body[0].orelse:
+            return None
+        inner = st.body[0]
+        last = inner.body[-1]
+        if len(brk) != 1 or brk[0] is not last:
+            return None
+        chain, tail = None, None
+        for env in envs:
+            test = body_for(env, [ast.Expr(value=inner.test)])[0].value
+            blk = body_for(env, inner.body[:-1]) or [ast.copy_location(ast.Pass(), inner)]
+            new_if = ast.copy_location(ast.If(test=test, body=blk, orelse=[]), inner)
+            if chain is None:
+                chain = new_if
+            else:
+                tail.orelse = [new_if]
+            tail = new_if
+        tail.orelse = list(st.orelse)
+        used.add(".".join(key))
+        return [chain]
+
+    def process(scope, stmts):
+        changed = False
+        i = 0
+        while i < len(stmts):
+            st = stmts[i]
+            if isinstance(st, (ast.FunctionDef, ast.AsyncFunctionDef, ast.ClassDef)):
+                i += 1
+                continue
+            for fld in ("body", "orelse", "finalbody"):
+                sub = getattr(st, fld, None)
+                if isinstance(sub, list) and sub and isinstance(sub[0], ast.stmt):
+                    changed |= process(scope, sub)
+            for hd in getattr(st, "handlers", []) or []:
+                changed |= process(scope, hd.body)
+            if isinstance(st, ast.For):
+                new = unroll_for(scope, st, stmts[i + 1:])
+                if new is not None:
+                    for s in new:
+                        ast.fix_missing_locations(s)
+                    stmts[i:i + 1] = new
+                    changed = True
+                    i += len(new)
+                    continue
+            i += 1
+        return changed
+
+    class _Comps(ast.NodeTransformer):
+        """comprehensions over a table -> the literal"""
+
+        def __init__(self, scope):
+            self.scope = scope
+            self.changed = False
+
+        def _rows(self, n):
+            if len(n.generators) != 1:
+                return None
+            g = n.generators[0]
+            if g.ifs or g.is_async:
+                return None
+            key = table_of(self.scope, g.iter, "seq")
+            if key is None:
+                return None
+            envs = [_row_bindings(g.target, r) for r in seqs[key].elts]
+            if any(e is None for e in envs):
+                return None
+            used.add(".".join(key))
+            return envs
+
+        def _inst(self, e, env):
+            x = _SubstLoads(env).visit(copy.deepcopy(e))
+            x = _FoldConstCalls().visit(x)
+            return x
+
+        def visit_ListComp(self, n):
+            self.generic_visit(n)
+            envs = self._rows(n)
+            if envs is None:
+                return n
+            self.changed = True
+            return ast.copy_location(ast.List(elts=[self._inst(n.elt, e) for e in envs], ctx=ast.Load()), n)
+
+        def visit_DictComp(self, n):
+            self.generic_visit(n)
+            envs = self._rows(n)
+            if envs is None:
+                return n
+            self.changed = True
+            return ast.copy_location(ast.Dict(keys=[self._inst(n.key, e) for e in envs], values=[self._inst(n.value, e) for e in envs]), n)
+
+        def visit_FunctionDef(self, n):
+            return n
+
+        visit_AsyncFunctionDef = visit_FunctionDef
+        visit_ClassDef = visit_FunctionDef
+
+    def dispatch(scope, stmts):
+        """`h = D.get(K, default)` ... `h(args)` (one use) -> if/elif chain of direct calls."""
+        changed = False
+        i = 0
+        while i < len(stmts):
+            st = stmts[i]
+            if isinstance(st, (ast.FunctionDef, ast.AsyncFunctionDef, ast.ClassDef)):
+                i += 1
+                continue
+            for fld in ("body", "orelse", "finalbody"):
+                sub = getattr(st, fld, None)
+                if isinstance(sub, list) and sub and isinstance(sub[0], ast.stmt):
+                    changed |= dispatch(scope, sub)
+            for hd in getattr(st, "handlers", []) or []:
+                changed |= dispatch(scope, hd.body)
+            sel = _selector(scope, st)
+            if sel is not None and i + 1 < len(stmts):
+                var, key, keyexpr, default = sel
+                nxt = stmts[i + 1]
+                uses = [x for x in ast.walk(nxt) if isinstance(x, ast.Name) and x.id == var and isinstance(x.ctx, ast.Load)]
+                later_uses = [x for s in stmts[i + 2:] for x in ast.walk(s) if isinstance(x, ast.Name) and x.id == var and isinstance(x.ctx, ast.Load)]
+                calls = [c for c in ast.walk(nxt) if isinstance(c, ast.Call) and isinstance(c.func, ast.Name) and c.func.id == var]
+                if len(uses) == 1 and len(calls) == 1 and not later_uses and isinstance(nxt, (ast.Assign, ast.Expr, ast.Return, ast.AnnAssign)):
+                    d = dicts[key]
+                    chain, tail = None, None
+                    for k, v in zip(d.keys, d.values):
+                        if isinstance(keyexpr, ast.Call) and isinstance(keyexpr.func, ast.Name) and keyexpr.func.id == "type" and isinstance(k, (ast.Name, ast.Attribute)):
+                            test = ast.Compare(left=copy.deepcopy(keyexpr), ops=[ast.Is()], comparators=[copy.deepcopy(k)])
+                        else:
+                            test = ast.Compare(left=copy.deepcopy(keyexpr), ops=[ast.Eq()], comparators=[copy.deepcopy(k)])
+                        blk = _SubstLoads({var: v}).visit(copy.deepcopy(nxt))
+                        new_if = ast.copy_location(ast.If(test=test, body=[blk], orelse=[]), st)
+                        if chain is None:
+                            chain = new_if
+                        else:
+                            tail.orelse = [new_if]
+                        tail = new_if
+                    if default is not None:
+                        tail.orelse = [_SubstLoads({var: default}).visit(copy.deepcopy(nxt))]
+                    else:
+                        tail.orelse = [ast.copy_location(ast.Raise(exc=ast.Call(func=ast.Name(id="KeyError", ctx=ast.Load()), args=[copy.deepcopy(keyexpr)], keywords=[]), cause=None), st)]
+                    ast.fix_missing_locations(chain)
+                    stmts[i:i + 2] = [chain]
+                    used.add(".".join(key))
+                    changed = True
+            i += 1
+        return changed
+
+    def _selector(scope, st):
+        if not (isinstance(st, ast.Assign) and len(st.targets) == 1 and isinstance(st.targets[0], ast.Name)):
+            return None
+        v = st.value
+        if isinstance(v, ast.Call) and isinstance(v.func, ast.Attribute) and v.func.attr == "get" and 1 <= len(v.args) <= 2 and not v.keywords:
+            key = table_of(scope, v.func.value, "dict")
+            if key is None:
+                return None
+            default = v.args[1] if len(v.args) == 2 else ast.Constant(value=None)
+            if not isinstance(default, (ast.Name, ast.Attribute)):
+                return None
+            return st.targets[0].id, key, v.args[0], default
+        if isinstance(v, ast.Subscript) and isinstance(v.ctx, ast.Load):
+            key = table_of(scope, v.value, "dict")
+            if key is None:
+                return None
+            return st.targets[0].id, key, v.slice, None
+        return None
+
+    for f in list(model.functions.values()):
+        if f.module.short.startswith("_typeguard"):
+            continue
+        ch = process(f, f.node.body)
+        tr = _Comps(f)
+        for s in f.node.body:
+            tr.visit(s)
+        ch |= tr.changed
+        ch |= dispatch(f, f.node.body)
+        if ch:
+            ast.fix_missing_locations(f.node)
+    return sorted(used)
+
+
+# --------------------------------------------------------------------------- local dicts of flags
+def scalarise_local_dicts(model) -> list:
+    """`seen = {"#": False, "*": False}; seen["#"] = True; if seen["*"]: ...` -> one local per key.
+    Exact when the dict is a literal with constant keys, bound once, and every other occurrence of the name is
+    a subscript with one of those constant keys (load or store).  Run after table unrolling, which is what
+    produces these shapes out of table-driven code."""
+    done = []
+    for f in list(model.functions.values()):
+        if f.module.short.startswith("_typeguard"):
+            continue
+        cands = {}
+        stores = {}
+        for n in _walk_own(f.node):
+            if isinstance(n, ast.Name) and isinstance(n.ctx, (ast.Store, ast.Del)):
+                stores[n.id] = stores.get(n.id, 0) + 1
+            if isinstance(n, ast.Assign) and len(n.targets) == 1 and isinstance(n.targets[0], ast.Name) and isinstance(n.value, ast.Dict) and n.value.keys \
+                    and all(isinstance(k, ast.Constant) and isinstance(k.value, (str, int, bool)) for k in n.value.keys):
+                keys = [k.value for k in n.value.keys]
+                if len(set(keys)) == len(keys):
+                    cands[n.targets[0].id] = (n, keys)
+        params = {a.arg for a in ast.walk(f.node.args) if isinstance(a, ast.arg)}
+        cands = {k: v for k, v in cands.items() if stores.get(k) == 1 and k not in params}
+        if not cands:
+            continue
+        # every other occurrence must be `name[const key]`; nested functions must not see the name at all
+        parents = {}
+        for p in ast.walk(f.node):
+            for c in ast.iter_child_nodes(p):
+                parents[id(c)] = p
+        for n in ast.walk(f.node):
+            if isinstance(n, ast.Name) and n.id in cands:
+                asg, keys = cands[n.id]
+                if n is asg.targets[0]:
+                    continue
+                p = parents.get(id(n))
+                ok = isinstance(p, ast.Subscript) and p.value is n and isinstance(p.slice, ast.Constant) and p.slice.value in keys \
+                    and isinstance(p.ctx, (ast.Load, ast.Store)) and type(p.slice.value) is type(keys[keys.index(p.slice.value)])
+                if ok:
+                    # ... and the occurrence must be in this function's own scope
+                    q = p
+                    while q is not None and q is not f.node:
+                        if isinstance(q, (ast.FunctionDef, ast.AsyncFunctionDef, ast.Lambda, ast.ClassDef)):
+                            ok = False
+                            break
+                        q = parents.get(id(q))
+                if not ok:
+                    del cands[n.id]
+        if not cands:
+            continue
+        taken = {x.id for x in ast.walk(f.node) if isinstance(x, ast.Name)} | params
+
+        def local(nm, keys, k):
+            base = f"{nm}__{keys.index(k)}"
+            return base if base not in taken else base + "_"
+
+        class Tr(ast.NodeTransformer):
+            def visit_Subscript(self, n):
+                self.generic_visit(n)
+                if isinstance(n.value, ast.Name) and n.value.id in cands and isinstance(n.slice, ast.Constant):
+                    _, keys = cands[n.value.id]
+                    return ast.copy_location(ast.Name(id=local(n.value.id, keys, n.slice.value), ctx=n.ctx), n)
+                return n
+
+            def visit_Assign(self, n):
+                if len(n.targets) == 1 and isinstance(n.targets[0], ast.Name) and n.targets[0].id in cands and n is cands[n.targets[0].id][0]:
+                    nm = n.targets[0].id
+                    _, keys = cands[nm]
+                    vals = [self.visit(v) for v in n.value.values]
+                    return [ast.copy_location(ast.Assign(targets=[ast.Name(id=local(nm, keys, k), ctx=ast.Store())], value=v, lineno=n.lineno), n)
+                            for k, v in zip(keys, vals)]
+                return self.generic_visit(n)
+
+        Tr().visit(f.node)
+        ast.fix_missing_locations(f.node)
+        done += [f"{f.qualname}:{nm}" for nm in cands]
+    return sorted(done)
+
+
+# --------------------------------------------------------------------------- conditional expressions
+class _DesugarIfExp(ast.NodeTransformer):
+    """`x = a if t else b` -> `if t: x = a` / `else: x = b`; `return a if t else b` likewise (chains
+    recursively).  The pinned tree has no conditional expression; the rules speak if/else."""
+
+    def __init__(self):
+        self.changed = False
+
+    def _split(self, st, get, put):
+        v = get(st)
+        if not isinstance(v, ast.IfExp):
+            return st
+        self.changed = True
+        a, b = copy.deepcopy(st), copy.deepcopy(st)
+        put(a, v.body)
+        put(b, v.orelse)
+        new = ast.copy_location(ast.If(test=v.test, body=[self._split(a, get, put)], orelse=[self._split(b, get, put)]), st)
+        return new
+
+    def visit_Assign(self, n):
+        self.generic_visit(n)
+        if len(n.targets) == 1 and isinstance(n.targets[0], (ast.Name, ast.Attribute)) and isinstance(n.value, ast.IfExp):
+            if isinstance(n.targets[0], ast.Attribute) and not _simple(n.targets[0].value):
+                return n
+            return self._split(n, lambda s: s.value, lambda s, v: setattr(s, "value", v))
+        return n
+
+    def visit_Return(self, n):
+        self.generic_visit(n)
+        if isinstance(n.value, ast.IfExp):
+            return self._split(n, lambda s: s.value, lambda s, v: setattr(s, "value", v))
+        return n
+
+    def visit_Lambda(self, n):
+        return n
+
+
+class _NormaliseAnyAll(ast.NodeTransformer):
+    """`any(True for x in xs if c)` -> `any(c for x in xs)`; `all(False for x in xs if c)` -> `all(not c for x in xs)`;
+    `any(e for x in xs if c)` -> `any(c and e for x in xs)`."""
+
+    def __init__(self):
+        self.changed = False
+
+    def visit_Call(self, n):
+        self.generic_visit(n)
+        if isinstance(n.func, ast.Name) and n.func.id in ("any", "all") and len(n.args) == 1 and not n.keywords and isinstance(n.args[0], (ast.GeneratorExp, ast.ListComp)) \
+                and len(n.args[0].generators) == 1 and n.args[0].generators[0].ifs:
+            ge = n.args[0]
+            g = ge.generators[0]
+            cond = g.ifs[0] if len(g.ifs) == 1 else ast.BoolOp(op=ast.And(), values=list(g.ifs))
+            elt = ge.elt
+            if n.func.id == "any":
+                new_elt = cond if (isinstance(elt, ast.Constant) and elt.value is True) else ast.BoolOp(op=ast.And(), values=[cond, elt])
+            else:
+                negc = ast.UnaryOp(op=ast.Not(), operand=cond)
+                new_elt = negc if (isinstance(elt, ast.Constant) and elt.value is False) else ast.BoolOp(op=ast.Or(), values=[negc, elt])
+            g.ifs = []
+            ge.elt = ast.copy_location(new_elt, elt)
+            ast.fix_missing_locations(ge)
+            self.changed = True
+        return n
+
+
+def desugar_ifexp(model) -> bool:
+    changed = False
+    for mod in model.modules.values():
+        if mod.short.startswith("_typeguard"):
+            continue
+        tr0 = _NormaliseAnyAll()
+        tr0.visit(mod.tree)
+        changed = changed or tr0.changed
+    for mod in model.modules.values():
+        if mod.short.startswith("_typeguard"):
+            continue
+        if not any(isinstance(x, ast.IfExp) for x in ast.walk(mod.tree)):
+            continue
+        tr = _DesugarIfExp()
+        # function and class bodies only: module-level statements are data for the rules as they are
+        for n in ast.walk(mod.tree):
+            if isinstance(n, (ast.FunctionDef, ast.AsyncFunctionDef)):
+                for fld in ("body",):
+                    new = []
+                    for st in n.body:
+                        r = tr.visit(st)
+                        new += r if isinstance(r, list) else [r]
+                    n.body = new
+        if tr.changed:
+            ast.fix_missing_locations(mod.tree)
+            changed = True
+    return changed
+
+
+# --------------------------------------------------------------------------- new context-manager classes
+_cm_counter = [0]
+
+
+def _cm_class_ok(cls_node: ast.ClassDef) -> Optional[dict]:
+    """{method name: FunctionDef} of a plain class that can be dissolved into its user: no bases (or object), no
+    decorators / metaclass, only methods (+ docstring, __slots__), with __enter__ and __exit__."""
+    if cls_node.decorator_list or cls_node.keywords or any(norm_base(b) != "object" for b in cls_node.bases):
+        return None
+    meths = {}
+    for b in _strip_doc(list(cls_node.body)):
+        if isinstance(b, ast.FunctionDef) and not b.decorator_list:
+            a = b.args
+            if a.vararg or a.kwarg or a.kwonlyargs or a.posonlyargs or not a.args or a.defaults or a.kw_defaults:
+                return None
+            if any(isinstance(x, (ast.Yield, ast.YieldFrom, ast.Await, ast.Nonlocal, ast.Global)) for x in ast.walk(b)):
+                return None
+            meths[b.name] = b
+        elif isinstance(b, ast.Assign) and len(b.targets) == 1 and isinstance(b.targets[0], ast.Name) and b.targets[0].id == "__slots__":
+            continue
+        elif isinstance(b, ast.Pass):
+            continue
+        else:
+            return None
+    if "__enter__" not in meths or "__exit__" not in meths or len(meths["__exit__"].args.args) != 4 or len(meths["__enter__"].args.args) != 1:
+        return None
+    return meths
+
+
+class _SelfToLocals(ast.NodeTransformer):
+    def __init__(self, selfname, prefix, renames):
+        self.selfname, self.prefix, self.renames = selfname, prefix, renames
+        self.bad = False
+
+    def visit_Attribute(self, n):
+        if isinstance(n.value, ast.Name) and n.value.id == self.selfname:
+            return ast.copy_location(ast.Name(id=f"{self.prefix}__{n.attr}", ctx=n.ctx), n)
+        return self.generic_visit(n)
+
+    def visit_Name(self, n):
+        if n.id == self.selfname:
+            self.bad = True  # `self` escapes (passed on, returned, compared): the object cannot be dissolved
+        if n.id in self.renames:
+            return ast.copy_location(ast.Name(id=self.renames[n.id], ctx=n.ctx), n)
+        return n
+
+    def visit_FunctionDef(self, n):
+        self.bad = True
+        return n
+
+    visit_Lambda = visit_AsyncFunctionDef = visit_ClassDef = visit_FunctionDef
+
+
+def _prune_exc_tests(stmts, excnames, raised: bool):
+    """Specialise an __exit__ body for 'left by an exception' / 'left normally': `exc_type is None` and
+    friends are decided, the dead branches removed.  None if the exception parameters are used otherwise."""
+    def decide(t):
+        if isinstance(t, ast.Compare) and len(t.ops) == 1 and isinstance(t.left, ast.Name) and t.left.id in excnames \
+                and isinstance(t.comparators[0], ast.Constant) and t.comparators[0].value is None:
+            if isinstance(t.ops[0], ast.Is):
+                return not raised
+            if isinstance(t.ops[0], ast.IsNot):
+                return raised
+        if isinstance(t, ast.UnaryOp) and isinstance(t.op, ast.Not):
+            v = decide(t.operand)
+            return None if v is None else not v
+        return None
+
+    out = []
+    for st in stmts:
+        if isinstance(st, ast.If):
+            v = decide(st.test)
+            if v is not None:
+                sub = _prune_exc_tests(st.body if v else st.orelse, excnames, raised)
+                if sub is None:
+                    return None
+                out += sub
+                continue
+        if any(isinstance(x, ast.Name) and x.id in excnames for x in ast.walk(st)):
+            return None
+        out.append(st)
+    return out
+
+
+def _strip_falsy_tail_return(stmts):
+    """An __exit__ body without its trailing `return False` / `return None` / `return`; None if it has
+    any other return (it could swallow the exception)."""
+    stmts = list(stmts)
+    if stmts and isinstance(stmts[-1], ast.Return) and (stmts[-1].value is None or (isinstance(stmts[-1].value, ast.Constant) and not stmts[-1].value.value)):
+        stmts = stmts[:-1]
+    if any(isinstance(x, ast.Return) for s in stmts for x in ast.walk(s)):
+        return None
+    return stmts
+
+
+def dissolve_new_cm_classes(model, module_names: dict) -> list:
+    """`rollback = _Rollback(); with rollback as (a, b): BODY; rollback.restore()` where `_Rollback` is a class that
+    does not exist in the pinned tree: the object is dissolved into locals of the using function (`self.x` ->
+    `rollback__x`), `__init__` / `__enter__` / plain method calls are spliced in, and the `with` becomes the
+    try/except/finally it stands for (`__exit__` specialised for 'left by an exception' / 'left normally').
+    Only when the object does not escape (every use is the creation, the `with`, `obj.method(..)` statements or
+    `obj.attr`), `__exit__` cannot swallow (ends in a falsy constant) and uses its arguments only in `is None` tests."""
+    done = []
+    classes = {}
+    for mod in model.modules.values():
+        if mod.short.startswith("_typeguard"):
+            continue
+        known = module_names.get(mod.short, set())
+        for st in mod.tree.body:
+            if isinstance(st, ast.ClassDef) and st.name not in known:
+                ms = _cm_class_ok(st)
+                if ms is not None:
+                    classes[(mod.short, st.name)] = ms
+    if not classes:
+        return done
+
+    def cls_of(scope, e):
+        if isinstance(e, ast.Call) and isinstance(e.func, ast.Name) and not e.keywords and not any(isinstance(a, ast.Starred) for a in e.args):
+            b = model.resolve_name(scope, e.func.id)
+            if b.kind == "class":
+                key = (b.target.module.short, b.target.name)
+                # the spliced statements must mean the same in the user's module: same module only; the storage
+                # module's classes are roles of their own (flag / stack typestates read them as they are)
+                if key[0] in ROLE_MODULES or not isinstance(scope, FuncInfo) or scope.module.short != key[0]:
+                    return None
+                return key if key in classes else None
+        return None
+
+    def expand_self_calls(stmts, selfname, meths, depth=0):
+        """`self.helper(a)` statements inside a method body -> the helper's body (its own `self` renamed, its
+        parameters bound by assignments); None if a helper has a shape that cannot be spliced."""
+        out = []
+        for st in stmts:
+            if isinstance(st, ast.Expr) and isinstance(st.value, ast.Call) and isinstance(st.value.func, ast.Attribute) and isinstance(st.value.func.value, ast.Name) \
+                    and st.value.func.value.id == selfname and st.value.func.attr in meths and depth < 3:
+                c = st.value
+                hm = meths[c.func.attr]
+                hp = [a.arg for a in hm.args.args]
+                if c.keywords or any(isinstance(a, ast.Starred) for a in c.args) or len(c.args) != len(hp) - 1 or c.func.attr in ("__enter__", "__exit__", "__init__"):
+                    return None
+                hb = _strip_doc(list(hm.body))
+                if hb and isinstance(hb[-1], ast.Return) and (hb[-1].value is None or (isinstance(hb[-1].value, ast.Constant) and hb[-1].value.value is None)):
+                    hb = hb[:-1]
+                if any(isinstance(x, ast.Return) for s_ in hb for x in ast.walk(s_)):
+                    return None
+                ren = {hp[0]: selfname}
+                pre = []
+                for p_, a_ in zip(hp[1:], c.args):
+                    tmp = f"{p_}__{c.func.attr}"
+                    pre.append(ast.copy_location(ast.Assign(targets=[ast.Name(id=tmp, ctx=ast.Store())], value=a_, lineno=st.lineno), st))
+                    ren[p_] = tmp
+                hb = [_Subst({}, ren).visit(copy.deepcopy(s_)) for s_ in hb]
+                sub = expand_self_calls(hb, selfname, meths, depth + 1)
+                if sub is None:
+                    return None
+                out += pre + sub
+                continue
+            st = copy.copy(st)
+            for fld in ("body", "orelse", "finalbody"):
+                blk = getattr(st, fld, None)
+                if isinstance(blk, list) and blk and isinstance(blk[0], ast.stmt):
+                    sub = expand_self_calls(blk, selfname, meths, depth)
+                    if sub is None:
+                        return None
+                    setattr(st, fld, sub)
+            if getattr(st, "handlers", None):
+                hs = []
+                for hd in st.handlers:
+                    hd = copy.copy(hd)
+                    sub = expand_self_calls(hd.body, selfname, meths, depth)
+                    if sub is None:
+                        return None
+                    hd.body = sub
+                    hs.append(hd)
+                st.handlers = hs
+            out.append(st)
+        return out
+
+    def splice(meth, selfname_prefix, args, taken, target_map=None, meths=None, stable=None):
+        """(statements, return expression or None) of a method body bound to `args`; None if unsupported."""
+        params = [a.arg for a in meth.args.args]
+        if len(args) != len(params) - 1:
+            return None
+        body = _strip_doc(list(meth.body))
+        if meths:
+            body = expand_self_calls(body, params[0], meths)
+            if body is None:
+                return None
+        rets = [x for s in body for x in ast.walk(s) if isinstance(x, ast.Return)]
+        ret = None
+        if rets:
+            if len(rets) != 1 or rets[0] is not body[-1]:
+                return None
+            ret = rets[0].value
+            body = body[:-1]
+        bound = _names_stored(ast.Module(body=body, type_ignores=[]))
+        renames = {}
+        for nm in bound:
+            if target_map and nm in target_map:
+                renames[nm] = target_map[nm]
+            elif nm in taken:
+                renames[nm] = f"{nm}__cm"
+        pre = []
+        direct = {}
+        for p, a in zip(params[1:], args):
+            if stable is not None and _simple(a) and not ({x.id for x in ast.walk(a) if isinstance(x, ast.Name)} & stable) and p not in bound:
+                direct[p] = a  # a simple argument whose names are not re-bound while the object lives: read in place
+                continue
+            tmp = f"{selfname_prefix}__arg_{p}"
+            pre.append(ast.Assign(targets=[ast.Name(id=tmp, ctx=ast.Store())], value=a, lineno=getattr(a, "lineno", 1)))
+            renames[p] = tmp
+        if direct:
+            body = [_SubstLoads(direct).visit(copy.deepcopy(s)) for s in body]
+            ret = _SubstLoads(direct).visit(copy.deepcopy(ret)) if ret is not None else None
+        tr = _SelfToLocals(params[0], selfname_prefix, renames)
+        out = [tr.visit(copy.deepcopy(s)) for s in body]
+        r = tr.visit(copy.deepcopy(ret)) if ret is not None else None
+        if tr.bad:
+            return None
+        return pre + out, r
+
+    for f in list(model.functions.values()):
+        if f.module.short.startswith("_typeguard") or not isinstance(f.node, (ast.FunctionDef, ast.AsyncFunctionDef)):
+            continue
+        withs = [w for w in _walk_own(f.node) if isinstance(w, ast.With) and len(w.items) == 1]
+        for w in withs:
+            ce = w.items[0].context_expr
+            key, inst, creation = None, None, None
+            if isinstance(ce, ast.Name):
+                defs = [a for a in _walk_own(f.node) if isinstance(a, ast.Assign) and len(a.targets) == 1 and isinstance(a.targets[0], ast.Name) and a.targets[0].id == ce.id]
+                stores = [x for x in _walk_own(f.node) if isinstance(x, ast.Name) and x.id == ce.id and isinstance(x.ctx, (ast.Store, ast.Del))]
+                if len(defs) == 1 and len(stores) == 1:
+                    key = cls_of(f, defs[0].value)
+                    inst, creation = ce.id, defs[0]
+            else:
+                key = cls_of(f, ce)
+                if key is not None:
+                    _cm_counter[0] += 1
+                    inst = f"__cm{_cm_counter[0]}"
+            if key is None:
+                continue
+            meths = classes[key]
+            # every use of the instance name
+            parents = {}
+            for p in ast.walk(f.node):
+                for c in ast.iter_child_nodes(p):
+                    parents[id(c)] = p
+            ok = True
+            mcalls = []
+            if creation is not None:
+                for x in ast.walk(f.node):
+                    if isinstance(x, ast.Name) and x.id == inst and isinstance(x.ctx, ast.Load):
+                        p = parents.get(id(x))
+                        if p is w.items[0] or x is ce:
+                            continue
+                        if isinstance(p, ast.Attribute) and p.value is x:
+                            pp = parents.get(id(p))
+                            if isinstance(pp, ast.Call) and pp.func is p:
+                                st = parents.get(id(pp))
+                                if p.attr in meths and isinstance(st, ast.Expr) and st.value is pp and not pp.keywords and not any(isinstance(a, ast.Starred) for a in pp.args):
+                                    mcalls.append((st, pp, p.attr))
+                                    continue
+                                ok = False
+                            elif p.attr in meths:
+                                ok = False  # a bound method handed elsewhere
+                            continue  # a field read: becomes the local
+                        ok = False
+                # nested functions must not see the object
+                for x in ast.walk(f.node):
+                    if isinstance(x, (ast.FunctionDef, ast.AsyncFunctionDef, ast.Lambda)) and x is not f.node and any(isinstance(y, ast.Name) and y.id == inst for y in ast.walk(x)):
+                        ok = False
+            if not ok:
+                continue
+            taken = {x.id for x in ast.walk(f.node) if isinstance(x, ast.Name)} | set(f.params)
+            tgt = w.items[0].optional_vars
+            call = creation.value if creation is not None else ce
+            init_stmts = []
+            if "__init__" in meths:
+                # names re-bound while the object lives (inside the with body; anywhere, if it is created earlier)
+                unstable = _names_stored(ast.Module(body=list(w.body), type_ignores=[])) if creation is None else _names_stored(f.node)
+                sp = splice(meths["__init__"], inst, list(call.args), taken, meths=meths, stable=unstable)
+                if sp is None or sp[1] is not None:
+                    continue
+                init_stmts = sp[0]
+            elif call.args:
+                continue
+            # __enter__: locals returned as a tuple are bound straight to the names of the `as` target
+            em = meths["__enter__"]
+            target_map = {}
+            ebody = _strip_doc(list(em.body))
+            eret = ebody[-1].value if ebody and isinstance(ebody[-1], ast.Return) else None
+            if isinstance(tgt, (ast.Tuple, ast.List)) and isinstance(eret, ast.Tuple) and len(tgt.elts) == len(eret.elts) \
+                    and all(isinstance(e, ast.Name) for e in tgt.elts) and all(isinstance(e, ast.Name) for e in eret.elts):
+                for te, re_ in zip(tgt.elts, eret.elts):
+                    if te.id != "_":
+                        target_map[re_.id] = te.id
+            sp = splice(em, inst, [], taken - set(target_map.values()), target_map, meths=meths)
+            if sp is None:
+                continue
+            enter_stmts, enter_val = sp
+            bind = []
+            if tgt is not None:
+                val = enter_val if enter_val is not None else ast.Constant(value=None)
+                same = isinstance(tgt, (ast.Tuple, ast.List)) and isinstance(val, ast.Tuple) and len(tgt.elts) == len(val.elts) and all(
+                    isinstance(a, ast.Name) and isinstance(b, ast.Name) and (a.id == b.id or a.id == "_") for a, b in zip(tgt.elts, val.elts))
+                if not same:
+                    bind = [ast.Assign(targets=[copy.deepcopy(tgt)], value=val, lineno=w.lineno)]
+            # __exit__
+            xm = meths["__exit__"]
+            xparams = [a.arg for a in xm.args.args]
+            xbody = _strip_falsy_tail_return(_strip_doc(list(xm.body)))
+            if xbody is None:
+                continue
+            parts = {}
+            for raised in (True, False):
+                pr = _prune_exc_tests(xbody, set(xparams[1:]), raised)
+                if pr is None:
+                    break
+                fake = ast.FunctionDef(name="__exit__", args=ast.arguments(posonlyargs=[], args=[ast.arg(arg=xparams[0])], kwonlyargs=[], kw_defaults=[], defaults=[]),
+                                       body=pr or [ast.Pass()], decorator_list=[], lineno=xm.lineno)
+                sp = splice(fake, inst, [], taken, meths=meths)
+                if sp is None:
+                    break
+                parts[raised] = [s for s in sp[0] if not isinstance(s, ast.Pass)]
+            if len(parts) != 2:
+                continue
+            # method-call statements
+            repl = {}
+            bad = False
+            for st, c, name in mcalls:
+                if name in ("__enter__", "__exit__", "__init__"):
+                    bad = True
+                    break
+                sp = splice(meths[name], inst, list(c.args), taken, meths=meths)
+                if sp is None or (sp[1] is not None and not (isinstance(sp[1], ast.Constant) and sp[1].value is None)):
+                    bad = True
+                    break
+                repl[id(st)] = sp[0] or [ast.Pass()]
+            if bad:
+                continue
+            # build the replacement of the with statement
+            body = list(w.body)
+            same_exit = [ast.dump(s) for s in parts[True]] == [ast.dump(s) for s in parts[False]]
+            if same_exit:
+                new_try = ast.Try(body=body, handlers=[], orelse=[], finalbody=parts[True] or [ast.Pass()]) if parts[True] else None
+                core = [new_try] if new_try is not None else body
+            else:
+                handler = ast.ExceptHandler(type=ast.Name(id="BaseException", ctx=ast.Load()), name=None, body=parts[True] + [ast.Raise(exc=None, cause=None)])
+                if parts[False]:
+                    flag = f"{inst}__left_by_exception"
+                    handler.body.insert(0, ast.Assign(targets=[ast.Name(id=flag, ctx=ast.Store())], value=ast.Constant(value=True), lineno=w.lineno))
+                    core = [ast.Assign(targets=[ast.Name(id=flag, ctx=ast.Store())], value=ast.Constant(value=False), lineno=w.lineno),
+                            ast.Try(body=body, handlers=[handler], orelse=[],
+                                    finalbody=[ast.If(test=ast.UnaryOp(op=ast.Not(), operand=ast.Name(id=flag, ctx=ast.Load())), body=parts[False], orelse=[])])]
+                else:
+                    core = [ast.Try(body=body, handlers=[handler], orelse=[], finalbody=[])]
+            new_with = ([] if creation is not None else init_stmts) + enter_stmts + bind + core
+
+            def rewrite(stmts):
+                i = 0
+                while i < len(stmts):
+                    st = stmts[i]
+                    if st is w:
+                        stmts[i:i + 1] = new_with
+                        i += len(new_with)
+                        continue
+                    if creation is not None and st is creation:
+                        stmts[i:i + 1] = init_stmts or [ast.Pass()]
+                        i += len(init_stmts or [0])
+                        continue
+                    if id(st) in repl:
+                        new = repl[id(st)]
+                        stmts[i:i + 1] = new
+                        i += len(new)
+                        continue
+                    if not isinstance(st, (ast.FunctionDef, ast.AsyncFunctionDef, ast.ClassDef)):
+                        for fld in ("body", "orelse", "finalbody"):
+                            sub = getattr(st, fld, None)
+                            if isinstance(sub, list) and sub and isinstance(sub[0], ast.stmt):
+                                rewrite(sub)
+                        for hd in getattr(st, "handlers", []) or []:
+                            rewrite(hd.body)
+                    i += 1
+
+            rewrite(f.node.body)
+            # remaining field reads `inst.attr` -> the local
+            class Fields(ast.NodeTransformer):
+                def visit_Attribute(self, n):
+                    if isinstance(n.value, ast.Name) and n.value.id == inst:
+                        return ast.copy_location(ast.Name(id=f"{inst}__{n.attr}", ctx=n.ctx), n)
+                    return self.generic_visit(n)
+
+            Fields().visit(f.node)
+            ast.fix_missing_locations(f.node)
+            done.append(f"{f.qualname}:{key[1]}")
+            break  # one object per function and round; the model is re-indexed by the caller
+    # a dissolved class that nothing mentions any more is dropped (its methods would otherwise still look like
+    # users of the storage API to the rules)
+    if done:
+        for (modshort, cname) in {(d.split(":")[0].split(".")[0], d.split(":")[1]) for d in done}:
+            mentioned = False
+            for mod in model.modules.values():
+                for x in ast.walk(mod.tree):
+                    if isinstance(x, ast.Name) and x.id == cname:
+                        mentioned = True
+                    if isinstance(x, ast.Attribute) and x.attr == cname:
+                        mentioned = True
+                    if isinstance(x, ast.alias) and x.name == cname:
+                        mentioned = True
+                    if isinstance(x, ast.Constant) and x.value == cname:
+                        mentioned = True
+            if not mentioned:
+                mod = model.modules.get(modshort)
+                if mod is not None:
+                    mod.tree.body = [st for st in mod.tree.body if not (isinstance(st, ast.ClassDef) and st.name == cname)]
+    return done
